@@ -304,6 +304,24 @@ if "C18" in CLAIMED:
     CLAIMED["C18"]["text"] += (" iv_fd_pump's buffers and pipe descriptors: C17's pump programs (incl. a failing splice probe) are run here and the resource-accounting part of "
                                "C17's oracle is reported.")
 
+if "C06" in CLAIMED:
+    CLAIMED["C06"]["text"] += (" Several loops in one process: an enumerated 'threads' family on the multi-thread scheduler harness (another thread's loop goes round while a "
+                               "task handler that will re-register runs; seed-chosen and systematically enumerated schedules) is judged by the rule that no task runs twice "
+                               "in one thread without that thread's kernel poll in between.")
+if "C09" in CLAIMED:
+    CLAIMED["C09"]["text"] += (" Enumerated 'regorder' family: every order (up to renaming) of five register/unregister toggles on three raw events, before iv_main or from a "
+                               "timer handler, under all four poll methods; a post whose write completed and is followed by ten completed kernel polls of the owner "
+                               "without the handler counts as lost.")
+if "C05" in CLAIMED:
+    CLAIMED["C05"]["text"] += (" Enumerated 'victims' cases: with the k-th timer in heap slot k, exactly the timer of a chosen slot (1, 2, 63-65, 126-130, last) is unregistered "
+                               "for populations around both radix boundaries (128, 16384).")
+if "C16" in CLAIMED:
+    CLAIMED["C16"]["text"] += (" Deep trees: Fibonacci trees of height 17-21 and 'spine' shapes (a path of h nodes with Fibonacci siblings) give retraces over every level "
+                               "of trees 16-21 levels deep.")
+if "C19" in CLAIMED:
+    CLAIMED["C19"]["text"] += (" Enumerated kill/reap races: another thread ends and reaps the child at the instant of the k-th signal, both placements of the threads, every "
+                               "schedule within the preemption bound.")
+
 NOT_YET = "check not built yet in this round; planned per DESIGN.md §7 (Lean model + theorems + correspondence)"
 
 checks = []
